@@ -644,7 +644,22 @@ fn gen_minada(rng: &mut Rng) -> J {
 /// Both passes are ordinary histories in the same vocabulary (a second Reset starts the second one).
 pub fn run_one(out: &mut Out, sc: usize, s: &J) {
     if s.get("minada").is_some() { return run_minada(out, sc, s); }
+    AIM.with(|x| x.set(None));
     let first = run_pass(out, sc, s);
+    if let Some(d) = s.get("rerun").and_then(|r| r.get("exact_edge")).and_then(|x| x.as_i64()) {
+        // the lovelace left over equals the fee the builder asks for WITHOUT a change output, +- d: the balancing call takes its
+        // "nothing left" / "leftover goes into the fee" branches (the library's own figures are used for aiming only)
+        if let Some((left, mf)) = AIM.with(|x| x.get()) {
+            let mut s2 = s.clone();
+            s2.as_object_mut().unwrap().remove("rerun");
+            let c0 = u64_of(&s2["utxo"][0]["value"]["coin_n"]);
+            if left > mf && c0 > (left - mf) + 1_000_000 {
+                let give = (left - mf) as i64 - d;
+                if give > 0 { s2["utxo"][0]["value"]["coin_n"] = jn(c0 - give as u64); run_pass(out, sc, &s2); }
+            }
+        }
+        return;
+    }
     let (tx, signed_len) = match (first, s.get("rerun")) { (Some(x), Some(_)) => x, _ => return };
     let rr = &s["rerun"];
     let mut s2 = s.clone();
@@ -721,6 +736,7 @@ pub fn run_one(out: &mut Out, sc: usize, s: &J) {
     }
 }
 
+thread_local! { static AIM: std::cell::Cell<Option<(u64, u64)>> = std::cell::Cell::new(None); }
 /// one history; returns the last transaction a VALIDATING build produced after a successful balancing, with its signed length
 fn run_pass(out: &mut Out, sc: usize, s: &J) -> Option<(csl::Transaction, usize)> {
     let mut last: Option<(csl::Transaction, usize)> = None;
@@ -794,6 +810,13 @@ fn run_pass(out: &mut Out, sc: usize, s: &J) -> Option<(csl::Transaction, usize)
             if ev["fee_if_set"].is_null() { ev.as_object_mut().unwrap().remove("fee_if_set"); }
             out.ev(ev);
             continue;
+        }
+        if matches!(name, "AddChange" | "AddChangeWithDatum") {
+            // figures of the builder just before the balancing call (for AIMING a later pass only: leftover lovelace and the fee it asks for)
+            if let (Ok(ti), Ok(to), Ok(mf)) = (st.tb.get_total_input(), st.tb.get_total_output(), st.tb.min_fee()) {
+                let (a, b, f): (u64, u64, u64) = (ti.coin().into(), to.coin().into(), mf.into());
+                AIM.with(|x| x.set(Some((a.saturating_sub(b), f))));
+            }
         }
         let r = call(|| apply(&mut st, op)).to_json(|m| m);
         if matches!(name, "AddChange" | "AddChangeWithDatum" | "AddInputsFromAndChange" | "AddInputsFromAndChangeWithCollateralReturn") { balanced_ok = r.get("ok").is_some(); }
@@ -932,7 +955,9 @@ pub fn gen(rng: &mut Rng) -> J {
         let (label, len, alonzo) = (rng.below(1000), 1 + rng.below(60), rng.chance(1, 2));
         ops.push(json!({"op": "SetAux", "label_n": jn(label), "len": len, "alonzo": alonzo}));
         // set again: the same content in the other layout, or other content
-        match rng.below(5) { 0 => ops.push(json!({"op": "SetAux", "label_n": jn(label), "len": len, "alonzo": !alonzo})), 1 => ops.push(json!({"op": "SetAux", "label_n": jn(label + 1), "len": len, "alonzo": alonzo})), _ => {} }
+        match rng.below(6) { 0 => ops.push(json!({"op": "SetAux", "label_n": jn(label), "len": len, "alonzo": !alonzo})), 1 => ops.push(json!({"op": "SetAux", "label_n": jn(label + 1), "len": len, "alonzo": alonzo})),
+                             // auxiliary data / metadata that is present but holds nothing (instead of, or after, the filled one)
+                             2 => { if rng.chance(1, 2) { ops.pop(); } ops.push(json!({"op": "SetAux", "empty": *rng.pick(&["metadata", "aux", "aux_alonzo"])})); } _ => {} }
     }
     if rng.chance(1, 6) {
         // metadata one entry at a time (typed, or from JSON under each schema), on top of whatever auxiliary data is there; scripts
@@ -1001,9 +1026,17 @@ pub fn gen(rng: &mut Rng) -> J {
                 o
             }
             2 | 3 => json!({"op": "SetTotalCollateralAndReturn", "to": to, "n": jn(match rng.below(4) { 0 => ccoin, 1 => ccoin.saturating_sub(900_000 + rng.below(400_000)), 2 => 300_000 + rng.below(1_000_000), _ => ccoin + 1 })}),
-            _ => { col_pct = Some(*rng.pick(&[150u64, 100, 1, 1000])); J::Null }
+            // (also percentages for which fee x percentage no longer fits 64 bits: the helper has to refuse, not wrap)
+            _ => { col_pct = Some(*rng.pick(&[150u64, 100, 1, 1000, 150, 10_000_000_000_000_000, u64::MAX / 3, u64::MAX])); J::Null }
         };
-        if !h.is_null() { if rng.chance(1, 2) { ops.push(h); } else { col_after.push(h); } }
+        if !h.is_null() {
+            // sometimes a helper (or a raw setter) has already run with other figures: the later helper call replaces BOTH fields
+            if rng.chance(1, 4) {
+                let first = match rng.below(3) { 0 => json!({"op": "SetTotalCollateral", "n": jn(1 + rng.below(ccoin.max(2)))}),
+                    1 => json!({"op": "SetTotalCollateralAndReturn", "to": to, "n": jn(ccoin.saturating_sub(1_000_000 + rng.below(500_000)).max(1))}),
+                    _ => json!({"op": "SetCollateralReturnAndTotal", "to": to, "value": {"coin_n": jn(ccoin.saturating_sub(1_500_000 + rng.below(500_000)).max(1_000_000)), "assets": cassets.clone()}}) };
+                if rng.chance(1, 2) { ops.push(first); ops.push(h); } else { col_after.push(first); col_after.push(h); }
+            } else if rng.chance(1, 2) { ops.push(h); } else { col_after.push(h); } }
     }
     // shuffle the non-balancing operations: the order of issuing them must not matter
     for i in (1..ops.len()).rev() { let j = rng.below(i as u64 + 1) as usize; ops.swap(i, j); }
@@ -1041,6 +1074,7 @@ pub fn gen(rng: &mut Rng) -> J {
     ops.push(json!({"op": "Build"}));
     if rng.chance(1, 4) { ops.push(json!({"op": "BuildAgain"})); }
     let mut scn = json!({"pp": pp, "utxo": utxo, "ops": ops});
+    if !select && col_pct.is_none() && rng.chance(1, 8) { scn["rerun"] = json!({"exact_edge": *rng.pick(&[0i64, 0, 0, 1, -1, 2, 200])}); return scn; }
     match rng.below(12) { 0 => { scn["rerun"] = json!({"max_tx": rng.below(3)}); } 1 => { scn["rerun"] = json!({"fixed_fee": rng.below(1001)}); } 2 => { scn["rerun"] = json!({"max_val": rng.below(4)}); } 3 | 4 => { scn["rerun"] = json!({"change_edge": rng.below(8000) as i64 - 2000}); } 5 | 6 => { scn["rerun"] = json!({"width_edge": rng.below(700) as i64 - 100}); } _ => {} }
     scn
 }
